@@ -33,6 +33,10 @@ def run(ctx):
         "MathComp (C04_tie_charpoly_correct, C04_tie_premises_sound) for the operations of any comRingType; the tie runs "
         "the same Gallina terms with stdlib Q (Qred after each operation, Qeq_bool), and that this instance is such a "
         "ring is not proved - the tie is a test of the theorem's premises and conclusion under that reading.",
+        "Input presentations exercised by the oracle: full matrices with subspace_indices (SymPy, dense ndarray, "
+        "csr_array) and - exact-float, tuple-form fully_diagonalize - the Hamiltonian already separated into blocks held as "
+        "scipy.sparse csr_matrix / coo_matrix objects (nested lists per order, or a BlockSeries). subspace_eigenvectors "
+        "input and implicit mode are not exercised here (C06/C14).",
         "Only Hermitian inputs (hermitian=True). Inputs with H_0 = 0 are rejected by the library (ValueError) and excluded. "
         "Exact arithmetic only: SymPy Gaussian rationals and exact-float (dyadic, energies in {0,1,2}) dense/sparse inputs; "
         "floating-point rounding on generic inputs is outside the statement. One toleranced family: numerical H_0 given as an "
